@@ -48,6 +48,15 @@ The loop was: seed -> run -> strengthen the check *generally* where it missed (n
   the library's own exception hierarchy raised by collaborators, bystander locks for *every* resource a request names,
   `regeneration_rate` as a constructor parameter in C04, "any N→A is the start" in C09's clock model, and a null stdout
   that behaves like a strict UTF-8 console.
+* Round 5 (48 changes, told about rounds 1–4): 27 caught at once (11 of the 12 aimed at C04/C05/C09/C13; the twelfth
+  exposed that C04 bounded debt by *all* interest ever charged instead of the interest charged since the debt was last
+  zero). The misses led to: same-callable re-registrations (C03), histories on one `Nucleus` with mixed `auto_execute`,
+  virtual time passing inside worker steps and stage processors, markers split across consecutive outputs (C18),
+  pre-built / shared assessor proteins and a real breaker inside C07's histories, in-flight *successes* across a trip and
+  exceptions with a raising `__str__` (C08), replay-memory floods and case-variant pattern pairs (C10), `tolerance = 0`
+  (C17), pre-emption judged against the holder's recorded priority and one-shot iterables as request lists (C14),
+  reported cycle *edges* and sweeps that also time out a bystander (C15), zero gain factors and post-hoc stage time
+  budgets (C19), caller edits of every returned container (C20).
 * __SUMMARY__
 
 A change seeded under one property's text is sometimes a defect of a neighbouring property's kind (a sequential
